@@ -687,7 +687,7 @@ func castArr(opts *options, v value) ([]value, Error) {
 
 		unrefed, err := ref.getValue(opts)
 		if err != nil {
-			return nil, raiseMissingMsg(ref.ctx.getParent(), ref.ctx.field, err.Error())
+			return nil, raisePathErr(ErrMissing, ref.meta(), err.Error(), ref.ctx.path("."))
 		}
 
 		// the referenced setting can be a reference itself
@@ -697,7 +697,7 @@ func castArr(opts *options, v value) ([]value, Error) {
 				break
 			}
 			if unrefed, err = next.getValue(opts); err != nil {
-				return nil, raiseMissingMsg(next.ctx.getParent(), next.ctx.field, err.Error())
+				return nil, raisePathErr(ErrMissing, next.meta(), err.Error(), next.ctx.path("."))
 			}
 		}
 
